@@ -1,7 +1,13 @@
 #!/bin/bash
 # ref_one.sh <refactoring.diff> : every quick check against one behaviour-preserving refactoring (scratch worktree)
 cd "$(dirname "$0")/../.."
+SRC=$PWD
+# private copy of the machinery: translate / lake build / evidence of concurrent workers must not interfere
+V=/tmp/vw_$$; rm -rf $V; mkdir -p $V
+rsync -a --exclude .git --exclude seeded --exclude refactorings --exclude replays --exclude design_probes $SRC/ $V/
+trap 'rm -rf $V' EXIT
 f=$(readlink -f "$1"); tag=$(basename $f .diff)
+cd $V
 IDS=$(python3 -c "import json; print(' '.join(c['property_id'] for c in json.load(open('MANIFEST.json'))['checks']))")
 W=/tmp/refw_${tag}_$$; git -C /repo worktree add -q --detach $W || exit 2
 res=""
